@@ -143,15 +143,13 @@ def tag_check_in_loader(db, f, rep):
                 ini = d.get("init")
                 if ini is not None and strip(ini) is first_load:
                     var = d["d"]
-    if var is None:
-        return None
     for n in f.nodes():
         if n["k"] == "IfStmt":
             c = strip(n["cond"])
             if c["k"] == "BinaryOperator" and c["op"] == "!=":
                 l, r = strip(c["lhs"]), strip(c["rhs"])
                 for a, b in ((l, r), (r, l)):
-                    if a["k"] == "DeclRefExpr" and a.get("d") == var and const_value(b) is not None:
+                    if ((var is not None and a["k"] == "DeclRefExpr" and a.get("d") == var) or a is first_load) and const_value(b) is not None:
                         return {"value": const_value(b), "name": strip(b).get("n", str(const_value(b))), "if": n,
                                 "cond": c, "var": var, "load": first_load}
     return None
@@ -174,6 +172,7 @@ def r_tags(db, rep):
         raise AnalysisBroken("StringDictionary::load has no switch on the tag")
     body = switch["body"].get("c", [])
     cur = []
+    default_null = False
     for st in body:
         s = st
         while s["k"] in ("CaseStmt", "DefaultStmt"):
@@ -187,6 +186,10 @@ def r_tags(db, rep):
             if c["k"] == "CallExpr" and c.get("fn", "").endswith("::load"):
                 for v in cur:
                     arms[v] = (c["fn"], c)
+        if "default" in cur and "default" not in arms:
+            rets = [x for x in walk(s) if x["k"] == "ReturnStmt"]
+            if rets and all(const_value(x.get("value")) == 0 for x in rets):
+                default_null = True
         if any(x["k"] in ("ReturnStmt", "BreakStmt") for x in walk(s)):
             cur = []
     if "default" in arms:
@@ -196,7 +199,7 @@ def r_tags(db, rep):
     # after the switch, the function must return NULL
     rep.ob()
     tail = [n for n in gl.body["c"] if n["k"] == "ReturnStmt"]
-    if not tail or const_value(tail[-1].get("value")) != 0:
+    if not default_null and (not tail or const_value(tail[-1].get("value")) != 0):
         rep.viol("StringDictionary::load#fallthrough", gl.loc,
                  "generic loader does not return NULL when no case matches", gl.qn)
     # the scrutinee must be the tag read from the image
